@@ -218,6 +218,8 @@ def run_c09(F, R, tier):
     from .e_typed_props import no_absolute_thresholds
     no_absolute_thresholds(F, R, spec.RECURSIVE_VIEWS, 'G0')
     linear_members_branch_free(F, R)
+    history_fading(F, R, tier)
+    R.floor('S5-history', 5)
     R.floor('S1-radius', 9)
     R.floor('S3-exp', 3)
     R.decline('boundedness through the non-linear stages beyond the rules above, "any chain built from them", and N beyond the enumerated range (except through the exp-form rule) are not decided')
@@ -645,6 +647,8 @@ def run_c11(F, R, tier):
         R.ob('K2-coef', 'CyberCycle:recursion', not bad and cnt > 0,
              'input gain (1 − α/2)² and feedback 2(1−α), −(1−α)² for %d window lengths' % cnt if not bad and cnt > 0 else (bad[0] if bad else 'new output row not found'), v.file)
     laguerre_rsi_ladder(F, R, Ns)
+    transient_vs_reference(F, R, tier)
+    R.floor('K1-history', 3)
     fisher_feedback(F, R)
     normaliser_rule(F, R, constants=(0.04, 0.96))
     # window min/max of the Fisher transform are rescanned extrema
@@ -748,17 +752,17 @@ def ema_transient(F, R, tier):
          else ('; '.join(bad[:2]) or 'nothing analysed'), v.file)
 
 
-def convex_transient(F, R, tier):
+def convex_transient(F, R, tier, names=('Sma', 'Ema', 'Alma'), rule='B1-convex'):
     """Sma, Ema (default alpha), Alma: every reported value is a convex combination (coefficients >= 0, sum 1, no constant
     term) of the inputs so far, for Sma and Alma of the last N inputs only. Hull, monotonicity, reproduction of constants
     and commutation with x -> a·x + b (a > 0) follow for these configurations."""
     from .lti import transient
     views = view_by_name(F)
     Ns = range(1, 13) if tier == 'quick' else range(1, 41)
-    for n in ('Sma', 'Ema', 'Alma'):
+    for n in names:
         v = views.get(n)
         if v is None:
-            R.violation('B1-convex', n, 'not found')
+            R.violation(rule, n, 'not found')
             continue
         m = model(F, v)
         bad = []
@@ -790,7 +794,7 @@ def convex_transient(F, R, tier):
                 if extra:
                     bad.append('N=%d: output %d depends on %s' % (N, k, extra[:2]))
                     break
-        R.ob('B1-convex', n, not bad and cnt > 0,
+        R.ob(rule, n, not bad and cnt > 0,
              'every reported value is a convex combination of the %s (N = %d..%d, %d outputs from the initial state)' % (
                  'last N inputs' if n != 'Ema' else 'inputs so far', Ns[0], Ns[-1], cnt) if not bad and cnt > 0 else ('; '.join(bad[:2]) or 'nothing analysed'), v.file)
 
@@ -830,3 +834,226 @@ def dc_first_output(F, R, tier):
                     break
         R.ob('DC-first', n, not bad and cnt > 0, 'a constant stream is reproduced from the first output on (%d outputs from the initial state)' % cnt
              if not bad and cnt > 0 else ('; '.join(bad[:2]) or 'nothing analysed'), v.file)
+
+
+# ----------------------------------------------------------------------------------------------
+# full-history comparison with the stated difference equations (reference run in the linear-form domain too)
+
+
+class _LF(dict):
+    """Linear form over input indices."""
+    def add(self, o, c=1.0):
+        for a, b in o.items():
+            self[a] = self.get(a, 0.0) + c * b
+        return self
+
+    @staticmethod
+    def u(k):
+        return _LF({k: 1.0})
+
+    @staticmethod
+    def comb(*pairs):
+        r = _LF()
+        for c, f in pairs:
+            r.add(f, c)
+        return r
+
+
+def ref_forms_supersmoother(K, coeffs, init, xs=None):
+    """y_k as linear forms; init 'zero': x_(-1) = y_(-1) = y_(-2) = 0; 'first': all equal to x_0. xs: input forms (default u_k)."""
+    c1, b1, c3 = coeffs
+    xs = xs or [_LF.u(k) for k in range(K)]
+    z = _LF() if init == 'zero' else _LF(xs[0])
+    x1, y1, y2 = _LF(z), _LF(z), _LF(z)
+    out = []
+    for k in range(K):
+        y = _LF.comb((c1 / 2, xs[k]), (c1 / 2, x1), (b1, y1), (c3, y2))
+        out.append(y)
+        y2, y1, x1 = y1, y, xs[k]
+    return out
+
+
+def ref_forms_laguerre(K, g, init):
+    xs = [_LF.u(k) for k in range(K)]
+    out = []
+    if init == 'zero':
+        l0, l1, l2, l3 = _LF(), _LF(), _LF(), _LF()
+        start = 0
+    else:
+        l0, l1, l2, l3 = _LF(xs[0]), _LF(xs[0]), _LF(xs[0]), _LF(xs[0])
+        out.append(_LF(xs[0]))
+        start = 1
+    for k in range(start, K):
+        n0 = _LF.comb((1 - g, xs[k]), (g, l0))
+        n1 = _LF.comb((-g, n0), (1.0, l0), (g, l1))
+        n2 = _LF.comb((-g, n1), (1.0, l1), (g, l2))
+        n3 = _LF.comb((-g, n2), (1.0, l2), (g, l3))
+        out.append(_LF.comb((1 / 6.0, n0), (2 / 6.0, n1), (2 / 6.0, n2), (1 / 6.0, n3)))
+        l0, l1, l2, l3 = n0, n1, n2, n3
+    return out
+
+
+def ref_forms_roofing(K, N, M, init, start=0):
+    """High-pass from the first value; the smoother (zero state) is switched on at input index `start` (the crate delays it
+    until its warm-up is over: `start` is read off the first reported output, whose position C08 pins independently)."""
+    xx = 0.707 * 2 * math.pi / N
+    al = (math.cos(xx) + math.sin(xx) - 1) / math.cos(xx)
+    xs = [_LF.u(k) for k in range(K)]
+    z = _LF() if init == 'zero' else _LF(xs[0])
+    x1, x2, hp1, hp2 = _LF(z), _LF(z), _LF(), _LF()
+    hps = []
+    for k in range(K):
+        hp = _LF.comb(((1 - al / 2) ** 2, xs[k]), (-2 * (1 - al / 2) ** 2, x1), ((1 - al / 2) ** 2, x2), (2 * (1 - al), hp1), (-(1 - al) ** 2, hp2))
+        hps.append(hp)
+        x2, x1, hp2, hp1 = x1, xs[k], hp1, hp
+    ys = ref_forms_supersmoother(K - start, ss_coeffs(M), 'zero', hps[start:])
+    return [_LF() for _ in range(start)] + ys
+
+
+def transient_vs_reference(F, R, tier):
+    """C11, whole history: the forms reported from the constructor's initial state on equal the stated difference equation
+    started from a zero or a first-value initial state (one convention for the whole run), coefficient by coefficient."""
+    from .lti import transient
+    views = view_by_name(F)
+    Ns = list(range(1, 13)) if tier == 'quick' else list(range(1, 41))
+    jobs = [('SuperSmoother', [([N], []) for N in Ns], lambda ints, fl, K, init: ref_forms_supersmoother(K, ss_coeffs(ints[0]), init)),
+            ('LaguerreFilter', [([], [g]) for g in (0.0, 0.2, 0.5, 0.8, 0.95)], lambda ints, fl, K, init: ref_forms_laguerre(K, fl[0], init)),
+            ('RoofingFilter', [([N, M], []) for N in Ns if N >= 2 for M in ((2, 5) if tier == 'quick' else (2, 3, 5, 10))],
+             lambda ints, fl, K, init, start=0: ref_forms_roofing(K, ints[0], ints[1], init, start))]
+    for n, cfgs, ref in jobs:
+        v = views.get(n)
+        if v is None:
+            continue
+        m = model(F, v)
+        bad = []
+        cnt = 0
+        for ints, floats in cfgs:
+            args = _ctor_args(m, 'new', ints, floats)
+            K = (sum(ints) if ints else 4) + 14
+            outs, probs = transient(m, 'new', args, K)
+            if outs is None:
+                continue
+            verdicts = {}
+            first = next((k for k, o in enumerate(outs) if o is not None), None)
+            for init in ('zero', 'first'):
+                if n == 'RoofingFilter':
+                    if first is None or first - ints[1] + 1 < 0:
+                        continue
+                    rf = ref(ints, floats, K, init, first - ints[1] + 1)
+                else:
+                    rf = ref(ints, floats, K, init)
+                okc = True
+                why = ''
+                for k, o in enumerate(outs):
+                    if o is None:
+                        continue
+                    if o == 'nl':
+                        okc, why = False, 'output %d is not a linear form' % k
+                        break
+                    scale = max([abs(c) for c in rf[k].values()] + [1e-12])
+                    for j in range(k + 1):
+                        if abs(_coef(o, j) - rf[k].get(j, 0.0)) > 2e-4 * scale + 1e-12:
+                            okc, why = False, 'output %d: weight of input %d is %.6g, the difference equation gives %.6g' % (k, j, _coef(o, j), rf[k].get(j, 0.0))
+                            break
+                    if not okc:
+                        break
+                verdicts[init] = (okc, why)
+            if any(o is not None for o in outs):
+                cnt += 1
+                if not any(v_[0] for v_ in verdicts.values()):
+                    bad.append('%s: %s' % (ints or floats, '; '.join('%s (%s initial state)' % (w, i) for i, (o_, w) in verdicts.items()) or 'first output too early for the smoother length'))
+        R.ob('K1-history', n, not bad and cnt > 0,
+             'every output from the initial state on equals the stated difference equation from a zero or first-value initial state (%d configurations)' % cnt
+             if not bad and cnt > 0 else (bad[0] if bad else 'nothing analysed'), v.file)
+
+
+def history_fading(F, R, tier):
+    """C09 for the linear recursive members, from the constructor's initial state (warm-up gates and first-value seeding
+    included): with every input its own symbol, (a) the l1 norm of the weight vector of the reported value -- the exact
+    gain from a bounded input to the output -- does not grow with the number of updates, and (b) the weight of the first
+    inputs decays geometrically (the effect of an early value dies out)."""
+    from .lti import transient
+    views = view_by_name(F)
+    Ns = [1, 2, 3, 4, 5, 8, 16] if tier == 'quick' else [1, 2, 3, 4, 5, 6, 8, 12, 16, 24, 32, 48, 64]
+    for n in ('Ema', 'LaguerreFilter', 'SuperSmoother', 'RoofingFilter', 'CyberCycle'):
+        v = views.get(n)
+        if v is None:
+            continue
+        m = model(F, v)
+        bad = []
+        cnt = 0
+        if n == 'LaguerreFilter':
+            cfgs = [([], [g]) for g in (0.0, 0.3, 0.8, 0.95)]
+        elif n == 'RoofingFilter':
+            cfgs = [([N, M], []) for N in Ns for M in (2, 5)]
+        else:
+            cfgs = [([N], []) for N in Ns]
+        for ints, floats in cfgs:
+            args = _ctor_args(m, 'new', ints, floats)
+            span = (sum(ints) if ints else 20)
+            if floats and floats[0] >= 0.9:
+                span = 120
+            K = 8 * span + 48
+            outs, probs = transient(m, 'new', args, K)
+            if outs is None or all(o is None for o in outs):
+                continue
+            cnt += 1
+            if any(o == 'nl' for o in outs):
+                bad.append('%s: an output is not a linear form of the inputs' % (ints or floats))
+                continue
+            norms = [(k, sum(abs(c) for a, c in o.items() if a.startswith('u'))) for k, o in enumerate(outs) if o is not None]
+            half = [x for k, x in norms if k < K // 2]
+            rest = [x for k, x in norms if k >= K // 2]
+            if half and rest and max(rest) > max(half) * (1 + 1e-3) + 1e-9:
+                bad.append('%s: the gain from bounded inputs to the output grows with the stream (l1 norm %.6g in the first half, %.6g in the second)' % (
+                    ints or floats, max(half), max(rest)))
+                continue
+            first = [abs(o.get('u0', 0.0)) + abs(o.get('u1', 0.0)) + abs(o.get('u2', 0.0)) for k, o in enumerate(outs) if o is not None]
+            peak = max(first) if first else 0.0
+            tail = max(first[-8:]) if first else 0.0
+            if peak > 0 and tail > 1e-3 * peak:
+                bad.append('%s: after %d updates the first inputs still carry weight %.3g (peak %.3g): their effect does not die out' % (ints or floats, K, tail, peak))
+        R.ob('S5-history', n, not bad and cnt > 0,
+             'from the initial state the input-to-output gain stays bounded and the weight of the first inputs decays (%d configurations)' % cnt
+             if not bad and cnt > 0 else (bad[0] if bad else 'nothing analysed'), v.file)
+
+
+def linear_history(F, R, tier):
+    """C10, second engine: from the constructor's initial state, with every input its own symbol, every value the 8 linear
+    views report is a linear form of the inputs so far -- no constant term, no non-linear atom (independent of the typing proof)."""
+    from .lti import transient
+    views = view_by_name(F)
+    Ns = [1, 2, 3, 4, 5, 8, 13] if tier == 'quick' else list(range(1, 33))
+    for n in spec.LINEAR_VIEWS:
+        v = views.get(n)
+        if v is None:
+            continue
+        m = model(F, v)
+        bad = []
+        cnt = 0
+        if n == 'LaguerreFilter':
+            cfgs = [([], [g]) for g in (0.0, 0.5, 0.9)]
+        elif n == 'RoofingFilter':
+            cfgs = [([N, M], []) for N in Ns for M in (2, 5)]
+        else:
+            cfgs = [([N], []) for N in Ns]
+        for ints, floats in cfgs:
+            args = _ctor_args(m, 'new', ints, floats)
+            if args is None:
+                continue
+            K = 3 * (sum(ints) if ints else 8) + 10
+            outs, probs = transient(m, 'new', args, K)
+            if outs is None or all(o is None for o in outs):
+                continue
+            cnt += 1
+            for k, o in enumerate(outs):
+                if o is None:
+                    continue
+                if o == 'nl':
+                    bad.append('%s: output %d is not a linear form of the inputs' % (ints or floats, k))
+                    break
+                if abs(o.get('1', 0.0)) > 1e-12 or any(not a.startswith('u') and a != '1' and abs(c) > 1e-12 for a, c in o.items()):
+                    bad.append('%s: output %d has a constant or foreign term %s' % (ints or floats, k, {a: c for a, c in o.items() if not a.startswith('u')}))
+                    break
+        R.ob('L-history', n, not bad and cnt > 0, 'every reported value from the initial state on is a homogeneous linear form of the inputs (%d configurations)' % cnt
+             if not bad and cnt > 0 else (bad[0] if bad else 'nothing analysed'), v.file)
